@@ -381,6 +381,12 @@ class GStmt:
     tries: Tuple[ast.Try, ...] = ()
     withs: Tuple[ast.With, ...] = ()
     versions: Dict[Tuple[str, ...], int] = dataclasses.field(default_factory=dict)
+    nest: int = 0  # number of enclosing if/loop/except constructs
+
+    @property
+    def top(self) -> bool:
+        """Not nested under any condition, loop or handler (early exits above it aside)."""
+        return self.nest == 0
 
     @property
     def lineno(self) -> int:
@@ -405,6 +411,7 @@ class Linear:
         self._versions: Dict[Tuple[str, ...], int] = {}
         self._fresh = itertools.count()
         self.asserts: List[Tuple[int, tuple]] = []
+        self._nest = 0
         self.exit_guard = self._block(fn.body, TRUE, (), False, False, (), ())
 
     # -- atoms -----------------------------------------------------------------
@@ -482,7 +489,7 @@ class Linear:
     def _add(self, st, guard, loops, fin, hand, tries, withs) -> GStmt:
         g = GStmt(
             st, guard, len(self.stmts), loops, fin, hand, tries, withs,
-            dict(self._versions),
+            dict(self._versions), self._nest,
         )
         self.stmts.append(g)
         return g
@@ -500,12 +507,19 @@ class Linear:
         if isinstance(st, ast.If):
             self._add(st, guard, loops, fin, hand, tries, withs)
             c = self.cond(st.test)
-            g_then = self._block(
-                st.body, f_and(guard, c), loops, fin, hand, tries, withs
-            )
-            g_else = self._block(
-                st.orelse, f_and(guard, f_not(c)), loops, fin, hand, tries, withs
-            )
+            in_then = f_and(guard, c)
+            in_else = f_and(guard, f_not(c))
+            self._nest += 1
+            g_then = self._block(st.body, in_then, loops, fin, hand, tries, withs)
+            g_else = self._block(st.orelse, in_else, loops, fin, hand, tries, withs)
+            self._nest -= 1
+            if g_then == in_then and g_else == in_else:
+                # neither branch leaves the function: control re-joins
+                return guard
+            if g_then == FALSE:
+                return g_else
+            if g_else == FALSE:
+                return g_then
             return f_or(g_then, g_else)
         if isinstance(st, (ast.For, ast.AsyncFor, ast.While)):
             self._add(st, guard, loops, fin, hand, tries, withs)
@@ -514,7 +528,9 @@ class Linear:
             g_body = f_and(guard, it)
             if isinstance(st, ast.While):
                 g_body = f_and(g_body, self.cond(st.test))
+            self._nest += 1
             self._block(st.body, g_body, loops + (st,), fin, hand, tries, withs)
+            self._nest -= 1
             # names assigned in the body have new versions afterwards
             self._block(st.orelse, guard, loops, fin, hand, tries, withs)
             return guard
@@ -526,9 +542,11 @@ class Linear:
             g_after = g_body
             for h in st.handlers:
                 ex = f_atom(("<exc#%d>" % next(self._fresh), ()))
+                self._nest += 1
                 g_h = self._block(
                     h.body, f_and(guard, ex), loops, fin, True, tries, withs
                 )
+                self._nest -= 1
                 g_after = f_or(g_after, g_h)
             g_after = self._block(
                 st.orelse, g_after, loops, fin, hand, tries + (st,), withs
